@@ -313,7 +313,7 @@ impl Live {
                 eprintln!("live server failed: {e}");
             }
         });
-        for _ in 0..400 {
+        for _ in 0..3000 {
             if std::net::TcpStream::connect(("127.0.0.1", port)).is_ok() {
                 return Ok(Live { _rt: rt, port });
             }
